@@ -76,6 +76,13 @@ def step (st : St) (j : Json) : Except String (St × Json × List Fired) := do
   let out := (j.getObjVal? "out").toOption.getD Json.null
   let s := st.s
   let mut fired : List Fired := []
+  -- a stored packet always carries the receipt of the route that accepted it (a packet is persisted only when the send
+  -- succeeded): a receipt-less stored packet means a failed or panicked send was treated as a success
+  let noRc := match (j.getObjVal? "obs").toOption.bind (fun o => (o.getObjVal? "noReceipt").toOption) with
+    | some (.arr a) => a.toList
+    | _ => []
+  if !noRc.isEmpty then
+    fired := fired ++ [{ name := "packet_stored_without_route_receipt", detail := jl noRc }]
   match op with
   | "setup" =>
     -- harness bookkeeping: a tunnel as created/activated/funded through the real messages
